@@ -272,6 +272,14 @@ func runLLMNR(w *rt.World, res *hx.Result, realServer, realClient bool) *hx.Viol
 		default:
 			handlers = []llmnr.Handler{respond, canary}
 		}
+		// a second Server value in the same process, never started: nothing it was given may ever run
+		decoyHandler := llmnr.HandlerFunc(func(*llmnr.Server, net.Addr, llmnr.ResponseWriter, *llmnr.Message) bool {
+			canaryRan = true
+			return false
+		})
+		if decoy, derr := llmnr.NewIPv4ServerWithHandlers([]llmnr.Handler{decoyHandler}); derr == nil {
+			decoy.RegisterHandler(decoyHandler)
+		}
 		var err error
 		if v6 {
 			srv, err = llmnr.NewIPv6ServerWithHandlers(handlers)
@@ -363,12 +371,16 @@ func runLLMNR(w *rt.World, res *hx.Result, realServer, realClient bool) *hx.Viol
 	var tasks []*rt.Task
 	var raws []*llRawClient
 	var realQs []*llQuery
-	var cl *llmnr.Client
+	var cl, cl2 *llmnr.Client // cl2: a second Client instance in the same process (state must not leak between instances)
+	twoClients := hx.G(2) == 0
 	idc := uint16(0x2000 + hx.G(0x4000))
 	if realClient {
 		mk := rt.GoHarness("client-start", "10.0.1.1", func() {
 			var err error
 			cl, err = llmnr.NewClient()
+			if err == nil && twoClients {
+				cl2, err = llmnr.NewClient()
+			}
 			if err != nil {
 				cl = nil
 			}
@@ -382,6 +394,9 @@ func runLLMNR(w *rt.World, res *hx.Result, realServer, realClient bool) *hx.Viol
 			cl.Timeout = 300 * time.Millisecond
 		case 2:
 			cl.Timeout = 5 * time.Second
+		}
+		if cl2 != nil {
+			cl2.Timeout = cl.Timeout
 		}
 		n := 0
 		for c := 0; c < nClients; c++ {
@@ -406,7 +421,11 @@ func runLLMNR(w *rt.World, res *hx.Result, realServer, realClient bool) *hx.Viol
 						})
 					}
 					lq.start = rt.Now()
-					lq.resp, lq.err = cl.Query(ctx, llName(lq.name), llmnr.TypeA)
+					use := cl
+					if cl2 != nil && lq.name%2 == 1 {
+						use = cl2
+					}
+					lq.resp, lq.err = use.Query(ctx, llName(lq.name), llmnr.TypeA)
 					lq.end = rt.Now()
 					lq.done = true
 				}))
@@ -463,6 +482,9 @@ func runLLMNR(w *rt.World, res *hx.Result, realServer, realClient bool) *hx.Viol
 			rt.SleepUntil(at)
 			cl.Close()
 			cl.Close()
+			if cl2 != nil {
+				cl2.Close()
+			}
 		})
 		rt.GoHarness("client-closer2", "10.0.1.1", func() {
 			rt.SleepUntil(at)
@@ -526,7 +548,12 @@ func runLLMNR(w *rt.World, res *hx.Result, realServer, realClient bool) *hx.Viol
 	}
 	if realClient {
 		if closer == nil {
-			closer = rt.GoHarness("client-closer", "10.0.1.1", func() { cl.Close() })
+			closer = rt.GoHarness("client-closer", "10.0.1.1", func() {
+				cl.Close()
+				if cl2 != nil {
+					cl2.Close()
+				}
+			})
 			rt.GoHarness("client-closer2", "10.0.1.1", func() { cl.Close() })
 		}
 		if !joinWithin(closer, llStopBound) {
@@ -543,7 +570,7 @@ func runLLMNR(w *rt.World, res *hx.Result, realServer, realClient bool) *hx.Viol
 
 	// ---- oracles
 	if canaryRan {
-		return &hx.Violation{Class: "handler_chain", Key: sysName, Msg: "a handler ran after an earlier handler in the chain had returned false (short-circuit broken)"}
+		return &hx.Violation{Class: "handler_chain", Key: sysName, Msg: "a handler ran that must not run: either after an earlier handler in the chain had returned false (short-circuit broken), or a handler that was only ever given to another, never started Server value"}
 	}
 	dups := w.Stats.Probes[rt.PDgramDup] > 0
 	lossy := w.Stats.Probes[rt.PDgramDropped] > 0 || w.Stats.TimeSkips > 0 || w.Stats.Probes[rt.PDgramDelayed] > 0
